@@ -20,25 +20,31 @@ def dump_raw(file_path, group="/"):
         m = min(len(b1), len(b2), len(cnt))
         float_counts = cnt.dtype.kind == "f"
         attrs = dict(g.attrs)
+        # float value columns: exact when every value (and the sum) is a multiple of 1/4096; otherwise the sum clause is skipped
+        SC = 4096 if float_counts else 1
+        exact = True
+        if float_counts:
+            exact = bool(np.all(np.isfinite(cnt[:m])) and np.all(cnt[:m] * SC == np.round(cnt[:m] * SC))
+                         and float(attrs.get("sum", 0)) * SC == round(float(attrs.get("sum", 0)) * SC))
         d = {
             "nbins": len(codes),
             "nchroms": int(len(g["chroms/name"])),
             "symm": str(attrs.get("storage-mode", "symmetric-upper")) == "symmetric-upper",
             "bin_chrom": codes,
-            "pixels": [[int(a), int(b), (int(c) if not float_counts else int(round(float(c))))]
+            "pixels": [[int(a), int(b), (int(c) if not float_counts else (int(round(float(c) * SC)) if exact else 0))]
                        for a, b, c in zip(b1[:m], b2[:m], cnt[:m])],
             "len1": int(len(b1)), "len2": int(len(b2)), "lenv": int(len(cnt)),
             "bin1_offset": [int(x) for x in g["indexes/bin1_offset"][:]],
             "chrom_offset": [int(x) for x in g["indexes/chrom_offset"][:]],
             "nnz": int(attrs["nnz"]), "nbins_attr": int(attrs["nbins"]), "nchroms_attr": int(attrs["nchroms"]),
-            "sum": int(round(float(attrs["sum"]))) if "sum" in attrs else 0,
+            "sum": (int(round(float(attrs["sum"]) * SC)) if exact else 0) if "sum" in attrs else 0,
         }
         extra = {
             "bin-type": attrs.get("bin-type"), "bin-size": attrs.get("bin-size"),
             "starts": [int(x) for x in g["bins/start"][:]], "ends": [int(x) for x in g["bins/end"][:]],
             "chrom_lengths": [int(x) for x in g["chroms/length"][:]],
             "other_pixel_cols": {k: int(len(g["pixels"][k])) for k in g["pixels"] if k not in ("bin1_id", "bin2_id", "count")},
-            "float_counts": float_counts,
+            "float_counts": float_counts, "float_exact": exact,
             "min_id": int(min(b1.min(initial=0), b2.min(initial=0))) if len(b1) else 0,
         }
     return d, extra
